@@ -1,6 +1,8 @@
 //! Orchestrator-side check drivers, one per claimed property.
 
 pub mod baseline;
+pub mod c01;
+pub mod c02;
 pub mod c19;
 pub mod diskrun;
 
@@ -31,6 +33,8 @@ pub fn main(args: &[String]) -> i32 {
     println!("VERIF_SEED={} property={} tier={}", seed, id, tier);
     match id {
         "C19" => c19::run(&tier, seed, replay),
+        "C02" => c02::run(&tier, seed, replay),
+        "C01" => c01::run(&tier, seed, replay),
         _ => {
             eprintln!("unknown property id {}", id);
             2
